@@ -324,8 +324,12 @@ def _clean_fn(s):
     return s.strip()
 
 
+_FRAME2 = re.compile(r"^\s+#\d+ 0x[0-9a-f]+ (?:in )?(.+?)(?: (/\S+?):\d+(?::\d+)?| \(\S+\)|$)", re.M)
+
+
 def san_summary(err):
-    """Return (kind, top-library-frames) for the first sanitizer report in stderr, or None."""
+    """Return (kind, top-library-frames) for the first sanitizer report in stderr, or None.
+    Frames whose function name carries no namespace (e.g. `start`) are qualified with their file name."""
     m = re.search(r"ERROR: (AddressSanitizer|LeakSanitizer): ([^\n]*)", err)
     kind = None
     if m:
@@ -342,15 +346,15 @@ def san_summary(err):
                 kind = "tsan:" + m.group(1).strip().replace(" ", "-")
     if not kind:
         return None
-    seg = err[m.start():m.start() + 8000]
+    seg = err[m.start():m.start() + 12000]
     frames = []
-    for f in _FRAME.findall(seg):
-        if "/repo/" in f or "unifex" in f:
-            pass
-        c = _clean_fn(f)
+    for fn, path in _FRAME2.findall(seg):
+        c = _clean_fn(fn)
         if c.startswith("__") or c.startswith("operator new") or c.startswith("operator delete") \
-                or c in ("malloc", "free", "memcpy", "memset"):
+                or c in ("malloc", "free", "memcpy", "memset") or c.startswith("std::"):
             continue
+        if "::" not in c and path:
+            c = os.path.basename(path) + ":" + c
         frames.append(c)
         if len(frames) >= 5:
             break
